@@ -1,4 +1,4 @@
-\* repaired protocol, 2 connections x 1 caller, best switches (ticker, one liveness flip)
+\* repaired protocol = the code as it is now (all Fix* = TRUE), 2 connections x 1 caller, best switches (ticker, one liveness flip)
 CONSTANTS
   NC = 2
   Waiters = {w1}
